@@ -77,7 +77,7 @@ theorem to_u64_eq_trunc (x : F64) (h1 : F64.ge x I64_LIMIT = true) (h2 : F64.lt 
 theorem lim63 : F64.fin false (1 * 2 ^ 1137) = I64_LIMIT := by rw [lit63]; rfl
 theorem lim64 : F64.fin false (1 * 2 ^ 1138) = U64_LIMIT := by rw [lit64]; rfl
 
-/-! ## `number_eq`: the literal `1e30`, the in-range `as i128`, and `as_int` -/
+/-! ## `number_eq`: the literal `1e30`, the in-range `as i128` -/
 theorem lit1e30 : F64.fin false (3552713678800501 * 2 ^ 1122) = ArrOp.F1e30 := by decide +kernel
 theorem lit1e30' : (3552713678800501 * 2 ^ 1122 : Nat) = (3552713678800501 * 2 ^ 48) * F64.S := by decide +kernel
 
@@ -96,8 +96,14 @@ theorem to_i128_eq_trunc (f : F64) (h : F64.lt f.abs ArrOp.F1e30 = true) : Rs.to
     generalize k / S = q at *
     cases n <;> simp <;> omega
 
-/- `number_eq_as_int` (the tie of the nested helper `as_int`) is in `JL/Tie/number_eq.lean`: this file does not mention any generated
-definition, so that a rewrite of one function cannot break the ties of the others through it. -/
+/-- `f as i128` behind any name (`simp` must not unfold `Rs.to_i128` on a symbolic float: it is generalised to `g` first) -/
+theorem i128_exact (g : F64 → Int) (h128 : Rs.to_i128 = g) (f : F64)
+    (c : (f.fractIsZero && F64.lt f.abs ArrOp.F1e30) = true) : g f = f.truncInt := by
+  simp only [Bool.and_eq_true] at c
+  rw [← h128]; exact to_i128_eq_trunc f c.2
+
+/- The tie of the helper `as_int` of `number_eq` is proved inside `JL/Tie/number_eq.lean`, where the helper is unfolded in
+place whatever it is called (`unfold_gen_aux`): no lemma here mentions a generated auxiliary by name. -/
 
 /-! ## `deep_eq`: depth bounds, and the closures over `zip`/`all`/`Map::get` against the model's structural recursion -/
 theorem depth_le_depthList {a : Json} : ∀ {xs : List Json}, a ∈ xs → Json.depth a ≤ Json.depthList xs
@@ -143,5 +149,52 @@ theorem kvs_all_tie (P : Str × Json → Bool) (y : List (Str × Json)) : ∀ (x
     simp only [rs] at ih h ⊢
     simp only [ArrOp.deepEqKvs, List.all_cons, ih, h k a List.mem_cons_self, lookupEq_eq]
     cases Json.lookup k y <;> simp
+
+/-! ### the same, in congruence form: the closure of the translated code is replaced by the model's (for the items that
+actually occur, which is where the induction hypothesis holds), whatever stands around the `all` -/
+
+/-- `deepEqList` without recursion: same length, and equal item by item -/
+theorem deepEqList_eq : ∀ (x y : List Json),
+    ArrOp.deepEqList x y = (x.length == y.length && (x.zip y).all (fun p => ArrOp.deepEq p.1 p.2))
+  | [], [] => by simp [ArrOp.deepEqList]
+  | [], _ :: _ => by simp [ArrOp.deepEqList]
+  | _ :: _, [] => by simp [ArrOp.deepEqList]
+  | a :: as, b :: bs => by
+    simp [ArrOp.deepEqList, deepEqList_eq as bs, Bool.and_left_comm]
+
+/-- what `deepEqKvs x y` asks of one entry of `x` -/
+def kvOk (y : List (Str × Json)) (p : Str × Json) : Bool :=
+  match Json.lookup p.1 y with
+  | some b => ArrOp.deepEq p.2 b
+  | none => false
+
+/-- `deepEqKvs` without recursion -/
+theorem deepEqKvs_eq (y : List (Str × Json)) : ∀ (x : List (Str × Json)), ArrOp.deepEqKvs x y = x.all (kvOk y)
+  | [] => by simp [ArrOp.deepEqKvs]
+  | (k, a) :: rest => by
+    simp only [ArrOp.deepEqKvs, List.all_cons, deepEqKvs_eq y rest, lookupEq_eq, kvOk]
+    cases Json.lookup k y <;> simp
+
+theorem all_congr_mem {α : Type} (P Q : α → Bool) : ∀ (x : List α), (∀ a ∈ x, P a = Q a) → x.all P = x.all Q
+  | [], _ => rfl
+  | a :: as, h => by
+    simp only [List.all_cons, h a List.mem_cons_self,
+      all_congr_mem P Q as (fun a ha => h a (List.mem_cons_of_mem _ ha))]
+
+theorem all_zip_congr {α β : Type} (P Q : α × β → Bool) : ∀ (x : List α) (y : List β),
+    (∀ a ∈ x, ∀ b, P (a, b) = Q (a, b)) → (x.zip y).all P = (x.zip y).all Q
+  | [], _, _ => by simp
+  | _ :: _, [], _ => by simp
+  | a :: as, b :: bs, h => by
+    simp only [List.zip_cons_cons, List.all_cons, h a List.mem_cons_self b,
+      all_zip_congr P Q as bs (fun a ha b => h a (List.mem_cons_of_mem _ ha) b)]
+
+/-- `x.iter().all(P)` where `P` agrees with `Q` on the items of `x` -/
+theorem rs_all_congr_mem {α : Type} (Q P : α → Bool) (x : List α) (h : ∀ a ∈ x, P a = Q a) : Rs.all x P = x.all Q :=
+  all_congr_mem P Q x h
+/-- `x.iter().zip(y.iter()).all(P)` where `P` agrees with `Q` on the pairs whose first component is an item of `x` -/
+theorem rs_all_zip_congr {α β : Type} (Q P : α × β → Bool) (x : List α) (y : List β)
+    (h : ∀ a ∈ x, ∀ b, P (a, b) = Q (a, b)) : Rs.all (Rs.zip x y) P = (x.zip y).all Q :=
+  all_zip_congr P Q x y h
 
 end JL.Lemmas.TieB
